@@ -87,10 +87,18 @@ def iterSection (G : UnitCtx → Nat → R DieObs) (w : DInfo) (S0 : DwarfStruct
   let (us, e) := sectionUnits w S0 sec isTypes
   (us.map fun (cu, rU) => (cu, rU >>= fun U => iterDIEs (G U) U.cuOffset U.cuDieOffset (unitFuel U)), e)
 
-/-- `dwarfinfo.get_DIE_by_sig8(sig)`: `_parse_debug_types` scans the whole `.debug_types`, then the entry at
-    the type_offset of the (last) unit carrying the signature -/
+/-- the units `_parse_debug_types` files by signature, in the order it enters them into the dict, and the exception
+    that ends the scan: every unit of `.debug_types`, then (`for cu in self._parse_CUs_iter()`) the DWARF 5 type
+    units among the units of `.debug_info`.  An error in `.debug_types` is raised before `.debug_info` is looked at. -/
+def sigUnits (w : DInfo) (S0 : DwarfStructs) : List (Lookup.CU × R UnitCtx) × Option Err :=
+  let (ts, et) := sectionUnits w S0 w.types true
+  let (is, ei) := sectionUnits w S0 w.info false
+  (ts ++ is.filter (fun p => isV5TypeUnit p.1), match et with | some e => some e | none => ei)
+
+/-- `dwarfinfo.get_DIE_by_sig8(sig)`: `_parse_debug_types` scans the whole `.debug_types` and the whole `.debug_info`,
+    then the entry at the type_offset of the (last) unit carrying the signature -/
 def sig8Lookup (G : UnitCtx → Nat → R DieObs) (w : DInfo) (S0 : DwarfStructs) (sig : Int) : R (Nat × DieObs) :=
-  let (us, e) := sectionUnits w S0 w.types true
+  let (us, e) := sigUnits w S0
   dieBySig8 G us e sig
 
 end PyElf.Model.C04
